@@ -129,7 +129,7 @@ def run(ctx):
         ctx.inst("C16.R1", "values::Value::stringify#non-display-branch", ok, "display_format=false branch prints with f64::to_string: %s" % ok, H.loc(arm["body"]))
     # to_string built-in goes through stringify_internal (display_format = false)
     bic = core.hir_fn("blots_core::functions::BuiltInFunction::call")
-    m = sorted(H.matches_on(bic["body"], "functions::BuiltInFunction"), key=lambda m_: -len(m_["arms"]))
+    m = [x_ for x_ in [H.main_match(bic["body"], "functions::BuiltInFunction")] if x_ is not None]
     arms = {}
     for a in m[0]["arms"]:
         for v in H.pat_variants(a["pat"]):
